@@ -144,7 +144,9 @@ func (p *Provider) Execute(ctx context.Context, name string, args []interface{})
 	out := f.Call(in)
 	n = len(out)
 	if method.ReturnError() {
-		if !out[n-1].IsNil() {
+		// IsZero rather than IsNil: the error slot may be a concrete error type that is not
+		// nillable (type CodeErr string), on which IsNil panics
+		if !out[n-1].IsZero() {
 			err = out[n-1].Interface().(error)
 		}
 		out = out[:n-1]
